@@ -1,6 +1,8 @@
 import AriesVerif.C13.Locks
 import AriesVerif.C13.Spec
 import AriesVerif.C13.Interleave
+import AriesVerif.C13.Atomic
+import AriesVerif.C13.Textbook
 #print axioms C13.no_unguarded_access
 #print axioms C13.no_write_under_read_lock
 #print axioms C13.inventory_covers
@@ -15,3 +17,7 @@ import AriesVerif.C13.Interleave
 #print axioms Interleave.writeLocked_coherent
 #print axioms Interleave.locked_coherent
 #print axioms Interleave.unlocked_stale_cache
+#print axioms Lin.respectsTime_go_of_lockOrder
+#print axioms Lin.atomic_sections_linearizable
+#print axioms Lin.perm_range_of_isPerm
+#print axioms Lin.linearizable_textbook
